@@ -270,6 +270,8 @@ PROPS = {
             {"mode": "direct", "quick": {"runs": 1600}, "thorough": {"runs": 16000}},
             {"mode": "sched", "quick": {"runs": 16000}, "thorough": {"runs": 160000}},
             {"mode": "direct-wide", "quick": {"runs": 3200}, "thorough": {"runs": 160000}},
+            # the scheduler as the transactional client uses it (engine txnsim: stores with local latches enabled)
+            {"mode": "latch", "engine": "txnsim", "quick": {"runs": 6000}, "thorough": {"runs": 150000}},
         ],
         "rule": ("direct-enum: run index = scenario of the complete enumeration (the enumeration ends by itself: 20688 scenarios quick, 80560 thorough tier), all step interleavings explored inside a run; "
                  "direct: seeded scenarios, exploration cut at 3000 distinct states; sched: seeded schedules of parked goroutines; non-trivial = at least two transactions contend; distinct = canonical step histories"),
